@@ -353,11 +353,13 @@ def run(tier: str) -> Run:
     for name in ('find_plateaus', 'collapse_plateaus', 'filter_in_phase'):
         f = repo.func('chopper.filtering', name)
         s_ = eff.summaries[f.fq]
-        if s_.mutates:
-            tok, m = sorted(s_.mutates.items())[0]
-            r5.fail(name, m.where, {'writes_to': sorted(s_.mutates), 'statement': m.stmt}, key=name)
+        # (what is reachable from the arguments; a memo table of the module is no argument - whether it changes results is R7's matter)
+        args_written = {t: m for t, m in s_.mutates.items() if t.startswith('p:')}
+        if args_written:
+            tok, m = sorted(args_written.items())[0]
+            r5.fail(name, m.where, {'writes_to': sorted(args_written), 'statement': m.stmt}, key=name)
         else:
-            r5.ok(name)
+            r5.ok(name, {'module_state_written': sorted(t for t in s_.mutates if not t.startswith('p:'))})
     from checks import c19_runs
     c19_runs.rule(run, repo, tier, loc(pfi))
     r7 = run.rule('R7', 'the plateaus found do not depend on earlier calls: two find_plateaus calls in one world (module-level tables and caches '
